@@ -151,6 +151,7 @@ Definition field_name (c : vcfg) (name : string) (auxiliary : bool) : string :=
          entry = struct_parse(self.version_auxiliaries_struct, self.stream, stream_pos=entry_offset)
          name = self.stringtable.get_string(entry[name_field])
          yield VersionAuxiliary(entry, name)
+         if entry[next_field] == 0: break        # a zero link ends the chain whatever [count] says
          entry_offset += entry[next_field] *)
 Fixpoint iter_version_auxiliaries (c : vcfg) (img : list Z) (stringtable : shdr)
          (count : nat) (entry_offset : Z) : res (list aux_view) :=
@@ -159,9 +160,11 @@ Fixpoint iter_version_auxiliaries (c : vcfg) (img : list Z) (stringtable : shdr)
   | S k =>
       do entry <- struct_parse_at (version_auxiliaries_struct c) img entry_offset;
       let name := get_string img stringtable (rec_z entry (field_name c "name" true)) in
-      do rest <- iter_version_auxiliaries c img stringtable k
-                   (entry_offset + rec_z entry (field_name c "next" true));
-      Ok ((entry, name) :: rest)
+      if rec_z entry (field_name c "next" true) =? 0 then Ok [(entry, name)]       (* break *)
+      else
+        do rest <- iter_version_auxiliaries c img stringtable k
+                     (entry_offset + rec_z entry (field_name c "next" true));
+        Ok ((entry, name) :: rest)
   end.
 
 (* iter_versions(), each yielded auxiliary iterator consumed before the next entry is asked for
@@ -171,6 +174,7 @@ Fixpoint iter_version_auxiliaries (c : vcfg) (img : list Z) (stringtable : shdr)
          entry = struct_parse(self.version_struct, self.stream, stream_pos=entry_offset)
          elf_assert(entry[count_field] > 0, ...)
          yield Version(entry), self._iter_version_auxiliaries(entry_offset + entry[aux_field], entry[count_field])
+         if entry[next_field] == 0: break        # a zero link ends the chain whatever sh_info says
          entry_offset += entry[next_field]
    [file_field] = Some "vn_file" adds GNUVerNeedSection.iter_versions' wrapper
      verneed.name = self.stringtable.get_string(verneed['vn_file'])
@@ -187,9 +191,11 @@ Fixpoint iter_versions_from (c : vcfg) (file_field : option string) (img : list 
         do auxs <- iter_version_auxiliaries c img stringtable
                      (Z.to_nat (rec_z entry (field_name c "cnt" false)))
                      (entry_offset + rec_z entry (field_name c "aux" false));
-        do rest <- iter_versions_from c file_field img stringtable k
-                     (entry_offset + rec_z entry (field_name c "next" false));
-        Ok ((entry, name, auxs) :: rest)
+        if rec_z entry (field_name c "next" false) =? 0 then Ok [(entry, name, auxs)]   (* break *)
+        else
+          do rest <- iter_versions_from c file_field img stringtable k
+                       (entry_offset + rec_z entry (field_name c "next" false));
+          Ok ((entry, name, auxs) :: rest)
   end.
 
 Definition iter_versions (c : vcfg) (file_field : option string) (img : list Z) (header stringtable : shdr)
@@ -204,7 +210,8 @@ Definition verdef_iter_versions (le is64 : bool) (img : list Z) (header stringta
      for verdef, verdaux_iter in self.iter_versions():
          if verdef['vd_ndx'] == index: return verdef, verdaux_iter
      return None
-   The returned iterator is consumed by the observer; entries after the hit are never read. *)
+   The returned iterator is consumed by the observer; entries after the hit are never read.
+   On a miss the generator is resumed: a zero next link ends it, the for loop ends, None. *)
 Fixpoint verdef_get_version_from (c : vcfg) (img : list Z) (stringtable : shdr)
          (n : nat) (entry_offset : Z) (index : Z) : res (option ver_view) :=
   match n with
@@ -217,6 +224,7 @@ Fixpoint verdef_get_version_from (c : vcfg) (img : list Z) (stringtable : shdr)
                      (Z.to_nat (rec_z entry (field_name c "cnt" false)))
                      (entry_offset + rec_z entry (field_name c "aux" false));
         Ok (Some (entry, None, auxs))
+      else if rec_z entry (field_name c "next" false) =? 0 then Ok None             (* generator's break *)
       else verdef_get_version_from c img stringtable k
              (entry_offset + rec_z entry (field_name c "next" false)) index
   end.
@@ -230,7 +238,8 @@ Definition verneed_iter_versions (le is64 : bool) (img : list Z) (header stringt
 
 (* the inner loop of get_version over one auxiliary iterator:
      for vernaux in vernaux_iter:
-         if vernaux['vna_other'] == index: return verneed, vernaux *)
+         if vernaux['vna_other'] == index: return verneed, vernaux
+   (a miss resumes _iter_version_auxiliaries: a zero next link ends it) *)
 Fixpoint find_vernaux (c : vcfg) (img : list Z) (stringtable : shdr)
          (count : nat) (entry_offset : Z) (index : Z) : res (option aux_view) :=
   match count with
@@ -239,6 +248,7 @@ Fixpoint find_vernaux (c : vcfg) (img : list Z) (stringtable : shdr)
       do entry <- struct_parse_at (version_auxiliaries_struct c) img entry_offset;
       let name := get_string img stringtable (rec_z entry (field_name c "name" true)) in
       if rec_z entry "vna_other" =? index then Ok (Some (entry, name))
+      else if rec_z entry (field_name c "next" true) =? 0 then Ok None              (* generator's break *)
       else find_vernaux c img stringtable k (entry_offset + rec_z entry (field_name c "next" true)) index
   end.
 
@@ -260,8 +270,10 @@ Fixpoint verneed_get_version_from (c : vcfg) (img : list Z) (stringtable : shdr)
                     (entry_offset + rec_z entry (field_name c "aux" false)) index;
         match hit with
         | Some a => Ok (Some (entry, name, a))
-        | None => verneed_get_version_from c img stringtable k
-                    (entry_offset + rec_z entry (field_name c "next" false)) index
+        | None =>
+            if rec_z entry (field_name c "next" false) =? 0 then Ok None            (* generator's break *)
+            else verneed_get_version_from c img stringtable k
+                   (entry_offset + rec_z entry (field_name c "next" false)) index
         end
   end.
 Definition verneed_get_version (le is64 : bool) (img : list Z) (header stringtable : shdr) (index : Z) :=
@@ -277,7 +289,7 @@ Definition verneed_get_version (le is64 : bool) (img : list Z) (header stringtab
                      self._has_indexes = True
                      break                     # leaves the INNER loop only
      return self._has_indexes
-   Inner loop: true = left through the break. *)
+   Inner loop: true = left through the break.  Both generators stop at a zero next link. *)
 Fixpoint has_indexes_inner (c : vcfg) (img : list Z) (count : nat) (entry_offset : Z) : res bool :=
   match count with
   | O => Ok false
@@ -285,6 +297,7 @@ Fixpoint has_indexes_inner (c : vcfg) (img : list Z) (count : nat) (entry_offset
       do entry <- struct_parse_at (version_auxiliaries_struct c) img entry_offset;
       (* the generator resolves the name before yielding; that cannot raise *)
       if negb (rec_z entry "vna_other" =? 0) then Ok true
+      else if rec_z entry (field_name c "next" true) =? 0 then Ok false            (* generator's break *)
       else has_indexes_inner c img k (entry_offset + rec_z entry (field_name c "next" true))
   end.
 (* outer loop; returns the exception that ended it (if any) and the value of self._has_indexes *)
@@ -301,8 +314,10 @@ Fixpoint has_indexes_outer (c : vcfg) (img : list Z) (n : nat) (entry_offset : Z
             match has_indexes_inner c img (Z.to_nat (rec_z entry (field_name c "cnt" false)))
                                     (entry_offset + rec_z entry (field_name c "aux" false)) with
             | Err e => (Some e, flag)
-            | Ok b => has_indexes_outer c img k
-                        (entry_offset + rec_z entry (field_name c "next" false)) (flag || b)
+            | Ok b =>
+                if rec_z entry (field_name c "next" false) =? 0 then (None, flag || b)   (* generator's break *)
+                else has_indexes_outer c img k
+                       (entry_offset + rec_z entry (field_name c "next" false)) (flag || b)
             end
       end
   end.
